@@ -16,8 +16,8 @@ import enum
 
 from . import sym
 from .sym import SInt, SBool, Unsupported, is_sym, is_intlike, OPAQUE, BitLength
-from .values import (SObj, BoundMethod, SuperProxy, Closure, GenObj, SBytes, mk_bytes,
-                     class_of, contains_sym, set_interp, values_equal)
+from .values import (SObj, BoundMethod, SuperProxy, Closure, GenObj, SBytes, mk_bytes, SymSet,
+                     class_of, contains_sym, set_interp, values_equal, next_serial)
 from .path import RaiseEx, Infeasible
 from .spec import And, Or, Not, ite, SpecRaise, AnyOf
 from . import models
@@ -34,6 +34,10 @@ class BreakEx(BaseException):
 
 class ContinueEx(BaseException):
     pass
+
+
+class SkipStatement(BaseException):
+    """inside an if-converted region whose condition is false on this path: the statement has no effect"""
 
 
 class Env:
@@ -54,6 +58,10 @@ class Env:
 
 
 _MISSING = object()
+
+
+def z3_is_undetermined(t):
+    return isinstance(t, (SBool, SInt))
 
 BINOPS = {
     ast.Add: operator.add, ast.Sub: operator.sub, ast.Mult: operator.mul,
@@ -95,6 +103,8 @@ class Interp:
         self.depth = 0
         self.max_loop = 300
         self.log_calls = 0
+        self.guards = []            # if-converted regions: (cond, first serial of the region, env)
+        self.container_serial = {}
         set_interp(self)
 
     # ------------------------------------------------------------------ sources
@@ -137,12 +147,135 @@ class Interp:
     # ------------------------------------------------------------------ helpers
     def fresh(self, container):
         self.fresh_ids[id(container)] = container
+        self.container_serial[id(container)] = next_serial()
         return container
+
+    # ------------------------------------------------------------------ guarded (if-converted) execution
+    def guard(self):
+        """conjunction of the conditions of the enclosing if-converted regions, or None"""
+        if not self.guards:
+            return None
+        return And([g[0] for g in self.guards])
+
+    def in_region(self, serial):
+        return bool(self.guards) and serial >= self.guards[0][1]
+
+    def merge_write(self, new, old, have_old=True):
+        """value to store for a write of `new` over `old` inside an if-converted region;
+        returns (do_write, value)"""
+        g = self.guard()
+        if g is None:
+            return True, new
+        if have_old and new is old:
+            return False, old
+        mergeable = have_old and ((isinstance(new, (bool, SBool)) and isinstance(old, (bool, SBool))) or
+                                  (is_intlike(new) and is_intlike(old)
+                                   and not isinstance(new, (bool, SBool)) and not isinstance(old, (bool, SBool))))
+        if mergeable:
+            return True, ite(g, new, old)
+        # not expressible as a merged value: split on the region's condition here
+        if self.test(g):
+            return True, new
+        return False, old
+
+    MERGE_SET_METHODS = ("add", "discard")
+
+    def mergeable_block(self, stmts):
+        for s in stmts:
+            if isinstance(s, ast.Pass):
+                continue
+            if isinstance(s, ast.Expr):
+                v = s.value
+                if isinstance(v, ast.Constant):
+                    continue
+                if isinstance(v, ast.Yield) and v.value is not None and not self.has_yield(v.value):
+                    continue
+                if isinstance(v, ast.Call) and isinstance(v.func, ast.Attribute) and isinstance(v.func.value, ast.Name) \
+                        and v.func.attr in self.MERGE_SET_METHODS and len(v.args) == 1 and not v.keywords \
+                        and not self.has_yield(v):
+                    continue
+                return False
+            if isinstance(s, ast.Assign) and len(s.targets) == 1 and isinstance(s.targets[0], ast.Name) \
+                    and not self.has_yield(s.value) and self.call_free(s.value):
+                continue
+            if isinstance(s, ast.AugAssign) and isinstance(s.target, ast.Name) and self.call_free(s.value):
+                continue
+            if isinstance(s, ast.If) and not self.has_yield(s.test) and self.call_free(s.test):
+                if self.mergeable_block(s.body) and self.mergeable_block(s.orelse):
+                    continue
+            return False
+        return True
+
+    @staticmethod
+    def has_yield(node):
+        return any(isinstance(n, (ast.Yield, ast.YieldFrom, ast.Await)) for n in ast.walk(node))
+
+    @staticmethod
+    def call_free(node):
+        return not any(isinstance(n, (ast.Call, ast.Yield, ast.YieldFrom, ast.Await, ast.NamedExpr))
+                       for n in ast.walk(node))
+
+    def exec_guarded(self, stmts, env, cond):
+        """execute a mergeable block under `cond` without forking: its writes become ite-merges"""
+        if not stmts:
+            return
+        self.guards.append((cond, next_serial(), env))
+        try:
+            for s in stmts:
+                try:
+                    self.exec_guarded_stmt(s, env)
+                except RaiseEx:
+                    # an exception inside the region happens exactly on the executions where the region runs
+                    g = self.guard()
+                    if self.test(g):
+                        raise
+                    return
+        finally:
+            self.guards.pop()
+
+    def exec_guarded_stmt(self, s, env):
+        if isinstance(s, ast.Expr) and isinstance(s.value, ast.Call) and isinstance(s.value.func, ast.Attribute) \
+                and isinstance(s.value.func.value, ast.Name) and s.value.func.attr in self.MERGE_SET_METHODS:
+            name = s.value.func.value.id
+            recv = self.load_name(name, env)
+            if isinstance(recv, (set, SymSet)):
+                arg = self.ev(s.value.args[0], env)
+                if isinstance(recv, set):
+                    if not self.is_fresh_container(recv):
+                        self.check_mutation(recv, "set." + s.value.func.attr)
+                    recv = SymSet.of(recv)
+                    # the name is rebound to the symbolic set (the real set object is no longer used)
+                    e = env
+                    while e is not None and name not in e.locals:
+                        e = e.parent
+                    if e is None:
+                        raise Unsupported("conditional update of a non-local set")
+                    e.locals[name] = recv
+                if s.value.func.attr == "add":
+                    recv.add_if(self.guard(), arg)
+                else:
+                    recv.discard_if(self.guard(), arg)
+                return
+        if isinstance(s, ast.If):
+            t = self.truth(self.ev(s.test, env))
+            if isinstance(t, bool):
+                return self.exec_guarded_block_inline(s.body if t else s.orelse, env)
+            self.exec_guarded(s.body, env, t)
+            self.exec_guarded(s.orelse, env, Not(t))
+            return
+        return self.exec_stmt(s, env)
+
+    def exec_guarded_block_inline(self, stmts, env):
+        for s in stmts:
+            self.exec_guarded_stmt(s, env)
 
     def is_fresh_container(self, c):
         return id(c) in self.fresh_ids or id(c) in self.declared_mutable
 
     def check_mutation(self, container, what):
+        if self.guards and not self.in_region(self.container_serial.get(id(container), 0)):
+            if not self.test(self.guard()):
+                raise SkipStatement()
         if not self.is_fresh_container(container):
             c = sym.ctx()
             if c is not None:
@@ -188,6 +321,8 @@ class Interp:
             return True
         if isinstance(v, SBytes):
             return len(v.items) != 0
+        if isinstance(v, SymSet):
+            return Or([c for _, c in v.elements()])
         if isinstance(v, BitLength):
             return v > 0
         if isinstance(v, (GenObj, Closure, BoundMethod)):
@@ -278,6 +413,8 @@ class Interp:
             return models.sbytes_attr(self, obj, name)
         if isinstance(obj, models.AssocDict):
             return models.assoc_attr(self, obj, name)
+        if isinstance(obj, SymSet):
+            return models.symset_attr(self, obj, name)
         if isinstance(obj, (SInt, SBool)):
             m = models.int_attr(self, obj, name)
             if m is not None:
@@ -362,6 +499,10 @@ class Interp:
                 c = sym.ctx()
                 if c is not None:
                     c.writes.append((obj, name))
+            if self.guards and not self.in_region(obj.serial):
+                do, value = self.merge_write(value, obj.fields.get(name), name in obj.fields)
+                if not do:
+                    return
             obj.fields[name] = value
             return
         c = sym.ctx()
@@ -746,6 +887,8 @@ class Interp:
             raise Unsupported("statement %s at %s:%d" % (s.__class__.__name__, env.qualname, s.lineno))
         try:
             return m(s, env)
+        except SkipStatement:
+            return None
         except RaiseEx as e:
             if e.where is None:
                 e.where = "%s:%d" % (env.qualname, s.lineno)
@@ -796,7 +939,16 @@ class Interp:
             raise Unsupported("augmented assignment target")
 
     def s_If(self, s, env):
-        if self.test(self.ev(s.test, env)):
+        t = self.truth(self.ev(s.test, env))
+        if not isinstance(t, bool):
+            ok = getattr(s, "_mergeable", None)
+            if ok is None:
+                ok = s._mergeable = self.mergeable_block(s.body) and self.mergeable_block(s.orelse)
+            if ok and sym.ctx() is not None and z3_is_undetermined(t):
+                self.exec_guarded(s.body, env, t)
+                self.exec_guarded(s.orelse, env, Not(t))
+                return
+        if self.test(t):
             self.exec_block(s.body, env)
         else:
             self.exec_block(s.orelse, env)
@@ -919,6 +1071,8 @@ class Interp:
         if spec is not None:
             return self.exec_loop_with_spec(s, env, spec)
         it = self.ev(s.iter, env)
+        if isinstance(it, SymSet):
+            return self.for_symset(s, env, it)
         items = self.iterate(it)
         broke = False
         for x in items:
@@ -932,6 +1086,33 @@ class Interp:
                 continue
         if not broke:
             self.exec_block(s.orelse, env)
+
+    def for_symset(self, s, env, it):
+        """iteration over a set with symbolic membership: every possible element in turn, its body run
+        under the membership condition (merged when the body allows, otherwise split)"""
+        ok = getattr(s, "_mergeable_body", None)
+        if ok is None:
+            ok = s._mergeable_body = self.mergeable_block(s.body) and not s.orelse
+        for elem, cond in it.elements():
+            if isinstance(cond, bool):
+                if not cond:
+                    continue
+                run = True
+            elif ok and isinstance(s.target, ast.Name):
+                env.locals[s.target.id] = elem      # the loop variable only matters inside the guarded body
+                self.exec_guarded(s.body, env, cond)
+                continue
+            else:
+                run = self.test(cond)
+            if run:
+                self.assign(s.target, elem, env)
+                try:
+                    self.exec_block(s.body, env)
+                except BreakEx:
+                    return
+                except ContinueEx:
+                    continue
+        self.exec_block(s.orelse, env)
 
     def s_Try(self, s, env):
         try:
@@ -1064,6 +1245,11 @@ class Interp:
             raise Unsupported("assignment target %s" % t.__class__.__name__)
 
     def store_name(self, name, v, env):
+        if self.guards and self.guards[-1][2] is env:
+            have = name in env.locals
+            do, v = self.merge_write(v, env.locals.get(name), have)
+            if not do:
+                return
         env.locals[name] = v
 
     def load_name(self, name, env):
@@ -1091,6 +1277,12 @@ class Interp:
             return list(it)
         if isinstance(it, dict):
             return list(it.keys())
+        if isinstance(it, SymSet):
+            out = []
+            for e, c in it.elements():
+                if self.test(c):
+                    out.append(e)
+            return out
         if isinstance(it, (set, frozenset)):
             try:
                 return sorted(it)
@@ -1380,6 +1572,8 @@ class Interp:
             if contains_sym(item) or contains_sym(container) or isinstance(item, SObj):
                 return Or([self.truth(self.is_or_eq(x, item)) for x in container])
             return self.native(operator.contains, container, item)
+        if isinstance(container, SymSet):
+            return container.member(item)
         if isinstance(container, (dict, set, frozenset)):
             if contains_sym(item):
                 keys = list(container.keys()) if isinstance(container, dict) else list(container)
@@ -1537,6 +1731,9 @@ class Interp:
         v = self.ev(n.value, env) if n.value is not None else None
         if self.yield_handler is None:
             raise Unsupported("yield outside a sequence environment")
+        g = self.guard()
+        if g is not None:
+            return self.yield_handler(v, g)
         return self.yield_handler(v)
 
     def e_YieldFrom(self, n, env):
